@@ -86,8 +86,26 @@ func hObserve(dir string) ([]string, error) {
 	return out, nil
 }
 
-// hGoroutines counts the live goroutines of the library's two background loops (whole process).
+// goroutines of the two loops that an EARLIER case left behind (a leak is reported where it happens, not again
+// in every later case)
+var hBaseFlusher, hBaseTicker int
+
+// hGoroutines counts the live goroutines of the library's two background loops (whole process) that the
+// current case started.
 func hGoroutines() (flusher, ticker int) {
+	f, t := hGoroutinesAbs()
+	f -= hBaseFlusher
+	t -= hBaseTicker
+	if f < 0 {
+		f = 0
+	}
+	if t < 0 {
+		t = 0
+	}
+	return f, t
+}
+
+func hGoroutinesAbs() (flusher, ticker int) {
 	for try := 0; ; try++ {
 		var buf bytes.Buffer
 		_ = pprof.Lookup("goroutine").WriteTo(&buf, 2)
@@ -156,6 +174,10 @@ func runHandles(res *Result, drv *Driver, seed uint64, n int, tier string, only 
 			continue
 		}
 		r := NewRng(seed, uint64(idx))
+		hBaseFlusher, hBaseTicker = hGoroutinesAbs()
+		if hBaseFlusher+hBaseTicker > 0 {
+			res.Stat("goroutines-inherited-from-earlier-case")
+		}
 		var err error
 		switch {
 		case idx == 0:
